@@ -128,23 +128,4 @@ impl<T> VecIter<T> {
             r.is_none() ==> forall|j: int| 0 <= j < old(self).rem().len() ==> f.ensures((#[trigger] old(self).rem()[j],), false),
     { unimplemented!() }
 }
-// (4) the host's total order on values (`obj_cmp`), uninterpreted (no order axiom is assumed or needed).  `Vec::binary_search` is specified against it: an `Ok(i)` always points at
-//     an equal element; on a strictly sorted vector the answer is the exact one.
-pub uninterp spec fn host_lt(a: SV, b: SV) -> bool;
-pub open spec fn host_sorted<T: ToSV>(s: Seq<T>) -> bool {
-    forall|i: int, j: int| 0 <= i < j < s.len() ==> host_lt(#[trigger] s[i].sv(), #[trigger] s[j].sv())
-}
-/// the host function is deterministic: its answer is a function of the vector and the item
-pub uninterp spec fn bs_spec<T>(s: Seq<T>, x: T) -> Result<u32, u32>;
-impl<T: ToSV> Vec<T> {
-    #[verifier::external_body]
-    pub fn binary_search(&self, x: &T) -> (r: Result<u32, u32>)
-        ensures
-            r == bs_spec(self@, *x),
-            r is Ok ==> (r->Ok_0 as int) < self@.len() && self@[r->Ok_0 as int] == *x,
-            r is Err ==> (r->Err_0 as int) <= self@.len(),
-            host_sorted(self@) && r is Err ==> !self@.contains(*x)
-                && (forall|i: int| 0 <= i < r->Err_0 ==> host_lt(#[trigger] self@[i].sv(), x.sv()))
-                && (forall|i: int| r->Err_0 <= i < self@.len() ==> host_lt(x.sv(), #[trigger] self@[i].sv())),
-    { unimplemented!() }
-}
+// (4) `Vec::binary_search` against the host's (uninterpreted) total order: see model/vec.rs
